@@ -44,6 +44,9 @@ func NewSparseConstIntVector(indices []int, values []int, n int) SparseConstIntV
   if len(indices) != len(values) {
     panic("invalid number of indices")
   }
+  // sort and filter copies, the arguments are left untouched
+  indices = append([]int{}, indices...)
+  values = append([]int{}, values...)
   sort.Sort(sortIntConstInt{indices, values})
   r := nilSparseConstIntVector(n)
   r.indices = indices[0:0]
